@@ -30,6 +30,8 @@ LEVEL_NOTE = ('Trusted: Coq kernel, extraction, the harness; numpy/scipy primiti
               'np.insert, broadcasting, scipy.integrate.simpson) are modelled and observed through the tie, not verified. '
               'Fixed in the tree: resample validates its grid before assigning the values (732bed0). Known finding: bin with '
               'integer-typed centres truncates the Simpson mid-points (C15-bin-integer-centres, pinned by two tests). '
+              'Known finding: sampling a ONE-sample spectrum held in a dtype other than float64/int64 gives nan '
+              '(C15-one-sample-other-dtype, fix proposed). '
               'Documented, not a violation: integrate moves a bound lying between two samples inward to the next sample.')
 TRUSTED = ['Coq 8.16.1 kernel (coqc; coqchk in the thorough tier)',
            'extraction with ExtrOcamlBasic only; ocaml/driver.ml',
@@ -49,7 +51,9 @@ RULE = ('corpus first, then random sessions (length <= 8 quick / <= 25 thorough)
         'accepted and refused crop/trim/pad/append/resample calls with value assignments on the same grid (scaled, shifted, '
         'reversed; value-unit conversions photlam/flam/wlam), and integrate / bin queries repeated with the same bounds and '
         'centres (state, exception class and answer compared with the model after every call; every query also put to a '
-        'brand-new object with the same wave and value); float and integer-typed arrays; several argument forms; short '
+        'brand-new object with the same wave and value); wave/value arrays and the array arguments of the editing calls in '
+        'float64, int64, uint8/16/32/64 and float32 (unsigned and float32 sessions judged by the oracle and against a '
+        'float64 twin run of the same calls); constructor on bad grids in every dtype; several argument forms; short '
         'histories (query, new values, same query); '
         'integrate with bounds inside/outside/at samples plus linear-combination and additivity companions, bins with uniform, '
         'non-uniform and shuffled centres, both ends, both rules, with and without power preservation, ends(), sample(); '
@@ -95,6 +99,7 @@ class Sim:
     def __init__(self, w, v, vu=None, qrate=0.3):
         self.w, self.v = list(w), list(v)
         self.vu, self.qrate, self.pool = vu, qrate, []
+        self.gaps = GAPS      # IGAPS in sessions on integer grids, so that typed (integer) arguments are possible
 
     def crop(self, a, b):
         if not self.w:
@@ -180,14 +185,17 @@ class Sim:
 GAPS = [F(1, 4), F(1, 2), F(1), F(2)]
 
 
-def rnd_grid(rng, n, start=None, uniform=False):
+IGAPS = [F(1), F(1), F(2)]
+
+
+def rnd_grid(rng, n, start=None, uniform=False, gaps=GAPS):
     x = start if start is not None else F(rng.randint(1, 24), 4)
     out = []
-    g = rng.choice(GAPS)
+    g = rng.choice(gaps)
     for _ in range(n):
         out.append(x)
         if not uniform:
-            g = rng.choice(GAPS)
+            g = rng.choice(gaps)
         x += g
     return out
 
@@ -313,12 +321,14 @@ def gen_op(rng, sim, budget):
         u = rng.random()
         n = len(w) if u < 0.45 else 1 if u < 0.8 else rng.randint(0, 4)
         if rng.random() < 0.75 or not w:
-            start = (w[-1] if w else F(1)) + rng.choice(GAPS)
+            start = (w[-1] if w else F(1)) + rng.choice(sim.gaps)
         else:
             start = rnd_point(rng, w)
+            if sim.gaps is IGAPS:
+                start = F(math.floor(start))
             if start <= 0:
-                start = F(1, 4)
-        ow = rnd_grid(rng, n, start=start)
+                start = F(1, 4) if sim.gaps is GAPS else F(1)
+        ow = rnd_grid(rng, n, start=start, gaps=sim.gaps)
         return {'k': 'append', 'w': fs(ow), 'v': fs(rnd_values(rng, n)), 'copy': rng.random() < 0.15}
     # resample
     u = rng.random()
@@ -329,7 +339,10 @@ def gen_op(rng, sim, budget):
                          ([w[-1] + 1] if w and rng.random() < 0.5 else [])))
         return {'k': 'resample', 'g': fs(pts)}
     if u < 0.29:
-        bad = rnd_grid(rng, rng.randint(1, 5), start=rnd_point(rng, w) if w else None)
+        st0 = rnd_point(rng, w) if w else None
+        if st0 is not None and sim.gaps is IGAPS:
+            st0 = F(max(1, math.floor(st0)))
+        bad = rnd_grid(rng, rng.randint(1, 5), start=st0, gaps=sim.gaps)
         bad = [x if x > 0 else F(1, 4) for x in bad]
         kind = rng.random()
         if kind < 0.4 and len(bad) >= 2:
@@ -344,9 +357,11 @@ def gen_op(rng, sim, budget):
     if u < 0.33:
         return {'k': 'resample', 'g': []}
     lo = (w[0] if w else F(2)) - F(rng.randint(-2, 3), 2)
+    if sim.gaps is IGAPS:
+        lo = F(math.floor(lo))
     if lo <= 0:
-        lo = F(1, 4)
-    g = rnd_grid(rng, rng.randint(1, 7), start=lo)
+        lo = F(1, 4) if sim.gaps is GAPS else F(1)
+    g = rnd_grid(rng, rng.randint(1, 7), start=lo, gaps=sim.gaps)
     return {'k': 'resample', 'g': fs(g), 'offnode': True}
 
 
@@ -381,6 +396,8 @@ def gen_history(rng):
         w, v = rnd_spectrum(rng, nmax=9, integer=integer)
     vu = 'photlam' if rng.random() < 0.25 and not integer else None
     sim = Sim(w, v, vu)
+    if integer:
+        sim.gaps = IGAPS
     q = gen_query(rng, sim, [])
     while q['k'] not in ('integrate', 'bin'):
         q = gen_query(rng, sim, [])
@@ -397,16 +414,51 @@ def gen_history(rng):
     c = {'op': 'seq', 'w': fs(w), 'v': fs(v), 'ops': ops}
     if vu:
         c['vu'] = vu
-    elif all_int(c['w'] + c['v']) and rng.random() < 0.7:
-        c['dtype'] = 'int'
+    else:
+        pick_dtype(rng, c)
     return c
 
 
+INT_DTYPES = ['int', 'uint8', 'uint16', 'uint32', 'uint64']
+
+
+def pick_dtype(rng, c):
+    """the representation of the wave/value arrays and of the array arguments of the editing calls: every dtype must
+    behave like its float64 twin"""
+    if all_int(c['w'] + c['v']) and all(F(x) >= 0 for x in c['w'] + c['v']):
+        if rng.random() < 0.85:
+            c['dtype'] = rng.choice(INT_DTYPES)
+    elif rng.random() < 0.08:
+        c['dtype'] = 'float32'
+
+
+def bad_start(rng, w, v):
+    """an initial grid the constructor must refuse"""
+    w = list(w)
+    u = rng.random()
+    if u < 0.45 and len(w) >= 2:
+        w = w[::-1] if rng.random() < 0.5 else w[1:] + w[:1]
+    elif u < 0.75 and w:
+        w.insert(rng.randrange(len(w)), rng.choice(w))
+        w.sort()
+        v = v + v[:1]
+    elif w:
+        w[0] = F(0)
+    return w, v
+
+
 def gen_seq(rng, maxlen):
-    integer = rng.random() < 0.1
+    integer = rng.random() < 0.22
     w, v = rnd_spectrum(rng, integer=integer)
+    if rng.random() < 0.03 and len(w) >= 2:
+        w, v = bad_start(rng, w, v)
+        c = {'op': 'seq', 'w': fs(w), 'v': fs(v), 'ops': []}
+        pick_dtype(rng, c)
+        return c
     vu = 'photlam' if rng.random() < 0.12 and not integer else None
     sim = Sim(w, v, vu, qrate=rng.choice([0.0, 0.25, 0.4]))
+    if integer:
+        sim.gaps = IGAPS
     ops = []
     budget = 3
     n = rng.randint(1, maxlen)
@@ -421,8 +473,8 @@ def gen_seq(rng, maxlen):
     c = {'op': 'seq', 'w': fs(w), 'v': fs(v), 'ops': ops}
     if vu:
         c['vu'] = vu
-    elif all_int(c['w'] + c['v']) and rng.random() < 0.7:
-        c['dtype'] = 'int'        # integer-typed wave/value arrays must behave like the float ones
+    else:
+        pick_dtype(rng, c)
     return c
 
 
@@ -575,6 +627,8 @@ def enc_op(o):
 def encode(c):
     op = c['op']
     if op == 'seq':
+        if c.get('dtype') not in (None, 'int'):
+            return None      # unsigned / float32 representations: judged by the oracle and against the float64 twin
         out = [1] + enc_lq(c['w']) + enc_lq(c['v']) + [len(c['ops'])]
         impl = None
         for k, o in enumerate(c['ops']):
@@ -631,11 +685,28 @@ def decode(c, ints):
 
 
 # ------------------------------------------------------------------ implementation side
+NP_DTYPES = {'int': np.int64, 'uint8': np.uint8, 'uint16': np.uint16, 'uint32': np.uint32, 'uint64': np.uint64,
+             'float32': np.float32}
+
+
+def typed(xs, dtype):
+    """the numbers as an array of the requested dtype when every one of them is representable there, else float64"""
+    a = arr(xs)
+    if dtype is None:
+        return a
+    t = NP_DTYPES[dtype]
+    if dtype != 'float32':
+        info = np.iinfo(t)
+        if not all(F(x).denominator == 1 and info.min <= F(x) <= min(info.max, 2 ** 53) for x in xs):
+            return a
+        return np.array([int(F(x)) for x in xs], dtype=t)
+    b = a.astype(t)
+    return b if np.array_equal(b.astype(float), a) else a
+
+
 def mk(w, v, vu=None, dtype=None):
     lentil = C.import_lentil()
-    if dtype == 'int':
-        return lentil.radiometry.Spectrum(np.array([int(F(x)) for x in w]), np.array([int(F(x)) for x in v]), valueunit=vu)
-    return lentil.radiometry.Spectrum(arr(w), arr(v), valueunit=vu)
+    return lentil.radiometry.Spectrum(typed(w, dtype), typed(v, dtype), valueunit=vu)
 
 
 def num(x, form):
@@ -661,7 +732,7 @@ def state(s):
     return {'w': [float(x) for x in np.asarray(s.wave).ravel()], 'v': [float(x) for x in np.asarray(s.value).ravel()]}
 
 
-def call_op(s, o):
+def call_op(s, o, dtype=None):
     k = o['k']
     if k == 'crop':
         return s.crop(float(F(o['a'])), float(F(o['b'])))
@@ -677,22 +748,36 @@ def call_op(s, o):
         elif m != 'default':
             kw['values'] = float(F(m[1])) if m[0] == 'scalar' else (float(F(m[1])), float(F(m[2])))
         ends = [float(F(o['e0'])), float(F(o['e1']))]
+        te = typed([o['e0'], o['e1']], dtype)
+        if dtype is not None and te.dtype != np.float64 and np.size(s.wave) and \
+                (te.dtype.kind != 'u' or (ends[0] <= float(np.min(s.wave)) and ends[1] >= float(np.max(s.wave)))):
+            # ends given in the dtype under test; an unsigned end INSIDE the grid is not passed typed: the caller's own
+            # unsigned subtraction would wrap to ~2**32 requested samples before lentil has a say
+            return s.pad(te, **kw)
         ends = tuple(ends) if o.get('form') == 1 else np.array(ends) if o.get('form') == 2 else ends
         return s.pad(ends, **kw)
     if k == 'append':
-        other = mk(o['w'], o['v'])
+        other = mk(o['w'], o['v'], dtype=dtype)
         if o.get('copy'):
             return s.append(other, copy=True)
         return s.append(other)
     if k == 'resample':
-        return s.resample(arr(o['g']))
+        return s.resample(typed(o['g'], dtype))
     if k == 'setvalue':
+        old = np.asarray(s.value)
         if o['how'] == 'scale':
-            s.value = num(o['par'], 2) * s.value
+            new = num(o['par'], 2) * old.astype(float) if old.dtype != np.float64 else num(o['par'], 2) * old
         elif o['how'] == 'shift':
-            s.value = s.value + num(o['par'], 2)
+            new = old.astype(float) + num(o['par'], 2) if old.dtype != np.float64 else old + num(o['par'], 2)
         else:
-            s.value = s.value[::-1].copy()
+            new = old[::-1].copy()
+        if old.dtype != np.float64 and new.dtype == np.float64:
+            # back to the dtype under test when the new values are small and representable there (the arithmetic of the
+            # assignment itself is the caller's, not lentil's: done in float64 so that it cannot wrap)
+            back = new.astype(old.dtype)
+            if np.array_equal(back.astype(float), new) and (old.dtype.kind == 'f' or np.all(np.abs(new) <= 16)):
+                new = back
+        s.value = new
         return None
     if k == 'to':
         return s.to(o['unit'])
@@ -714,13 +799,14 @@ def run_impl_raw(c):
         if op == 'seq':
             lentil = C.import_lentil()
             steps = []
+            dt = c.get('dtype')
             for o in c['ops']:
                 err, ret, ans, fresh = None, None, None, None
                 try:
                     if o['k'] in ('integrate', 'bin'):
                         ans = query(s, o)
                     else:
-                        r = call_op(s, o)
+                        r = call_op(s, o, dt)
                         if o['k'] == 'append' and o.get('copy'):
                             ret = state(r)
                 except Exception as e:
@@ -739,7 +825,12 @@ def run_impl_raw(c):
                         fresh = {'err': type(e).__name__}
                     st['ans'], st['fresh'] = ans, fresh
                 steps.append(st)
-            return {'steps': steps}
+            res = {'steps': steps, 'init': state(mk(c['w'], c['v'], c.get('vu'), dt))}
+            if dt is not None:
+                # the float64 twin: same calls, float64 arrays everywhere
+                twin = run_impl_raw({k: v for k, v in c.items() if k != 'dtype'})
+                res['twin'] = twin.get('steps') if 'steps' in twin else twin
+            return res
         if op == 'integrate':
             def integ(sp, a, b):
                 try:
@@ -951,7 +1042,7 @@ def same(x, y, tol=1e-12):
     return abs(x - y) <= tol * (1 + abs(y))
 
 
-def oracle_query(o, st, pw, pv, memo, tag):
+def oracle_query(o, st, pw, pv, memo, tag, lo_prec=False):
     """a query inside a session: answered from the object's CURRENT wave and value, whatever was asked before"""
     err, ans, fresh = st['err'], st.get('ans'), st.get('fresh')
     if isinstance(fresh, dict):
@@ -960,7 +1051,8 @@ def oracle_query(o, st, pw, pv, memo, tag):
         return None if err == fresh['err'] else f'{tag}: raises {err}, a new object with the same wave and value raises {fresh["err"]}'
     if err:
         return f'{tag}: raises {err}, a new object with the same wave and value answers {fresh!r}'
-    if not same(ans, fresh):
+    t11, t10 = (1e-5, 1e-5) if lo_prec else (1e-11, 1e-10)     # float32 arrays: single-precision arithmetic inside numpy
+    if not same(ans, fresh, 1e-5 if lo_prec else 1e-12):
         return (f'{tag}: the live object answers {ans!r} but a new object with the same wave and value answers {fresh!r} '
                 f'(the answer depends on the history of the object)')
     if o['k'] == 'integrate':
@@ -968,9 +1060,9 @@ def oracle_query(o, st, pw, pv, memo, tag):
         hi = F(float(F(o['b']))) if o['b'] is not None else max(pw)
         sw, sv = o_select(pw, pv, lo, hi)
         if o['rule'] == 'trapz':
-            if not close(ans, o_trapz(sw, sv), 1e-11):
+            if not close(ans, o_trapz(sw, sv), t11):
                 return f'{tag}: {ans!r}, trapezoid rule over the current samples in the closed range = {float(o_trapz(sw, sv))!r}'
-        elif sw and not same(ans, o_simpson(sw, sv), 1e-10):
+        elif sw and not same(ans, o_simpson(sw, sv), t10):
             return f'{tag}: {ans!r}, Simpson rule over the current samples in the closed range = {o_simpson(sw, sv)!r}'
         # linear in the values: same grid, values k times those of an earlier identical query
         key = (o['a'], o['b'], o['rule'])
@@ -979,7 +1071,7 @@ def oracle_query(o, st, pw, pv, memo, tag):
             nz = [i for i, y in enumerate(mv) if y != 0]
             if mw == pw and nz and len(mv) == len(pv):
                 kf = pv[nz[0]] / mv[nz[0]]
-                if all(y == kf * x for x, y in zip(mv, pv)) and not close(ans, kf * F(mi), 1e-10):
+                if all(y == kf * x for x, y in zip(mv, pv)) and not close(ans, kf * F(mi), t10):
                     return (f'{tag}: values are {float(kf)} times those of an earlier identical query that gave {mi!r}; '
                             f'integrate now gives {ans!r}, not {float(kf * F(mi))!r} (not linear in the values)')
         memo[key] = (pw, pv, ans)
@@ -989,15 +1081,49 @@ def oracle_query(o, st, pw, pv, memo, tag):
             return f'{tag}: {len(ans)} bins for {len(cs)} centres'
         if o['pp'] and o['rule'] == 'trapz' and all(math.isfinite(x) for x in ans) and abs(sum(ans)) > 1e-9:
             sw, sv = o_select(pw, pv, min(cs), max(cs))
-            if not close(sum(ans), o_trapz(sw, sv), 1e-10):
+            if not close(sum(ans), o_trapz(sw, sv), t10):
                 return (f'{tag}: power-preserved bins sum to {sum(ans)!r}, integrate over the span of the centres on the '
                         f'current values is {float(o_trapz(sw, sv))!r}')
+    return None
+
+
+def oracle_twin(c, impl):
+    """a spectrum held in another dtype (signed/unsigned integers, float32) against its float64 twin: while both accept
+    or both refuse they must hold the same samples and give the same answers; where the twin refuses, the typed object
+    must refuse too or at least stay well-formed (checked by the caller on every state)"""
+    tw = impl.get('twin')
+    if tw is None:
+        return None
+    if isinstance(tw, dict):
+        return f'the constructor accepts this {c["dtype"]} spectrum but refuses its float64 twin ({tw.get("err")})'
+    tol = 1e-5 if c['dtype'] == 'float32' else 1e-12
+    for k, (o, a, b) in enumerate(zip(c['ops'], impl['steps'], tw)):
+        if bool(a['err']) != bool(b['err']):
+            if o['k'] in ('integrate', 'bin'):
+                return f'step {k} ({o["k"]}): {c["dtype"]} object {a["err"] or "answers"}, float64 twin {b["err"] or "answers"}'
+            return None      # e.g. the caller's own integer arithmetic on the arguments: from here on two different histories
+        if not same(a['w'], b['w'], tol) or not same(a['v'], b['v'], tol):
+            return (f'step {k} ({o["k"]}): the {c["dtype"]} object holds wave {a["w"]} value {a["v"]}, its float64 twin '
+                    f'wave {b["w"]} value {b["v"]}')
+        if 'ans' in a and not a['err'] and not same(a['ans'], b['ans'], tol):
+            return f'step {k} ({o["k"]}): the {c["dtype"]} object answers {a["ans"]!r}, its float64 twin {b["ans"]!r}'
     return None
 
 
 def oracle_seq(c, impl):
     pw, pv = fx(fl(c['w'])), fx(fl(c['v']))
     memo = {}
+    lo_prec = c.get('dtype') == 'float32'
+    init = impl.get('init')
+    if init is not None:
+        iw, iv = fx(init['w']), fx(init['v'])
+        if len(iw) != len(iv) or not o_increasing(iw) or any(x <= 0 for x in iw):
+            return f'the constructor accepted wave {init["w"]} with {len(iv)} values'
+        if (iw, iv) != (pw, pv):
+            return 'the constructed object does not hold the given samples'
+    m = oracle_twin(c, impl)
+    if m:
+        return m
     for k, (o, st) in enumerate(zip(c['ops'], impl['steps'])):
         name = o['k']
         if any(not math.isfinite(x) for x in st['w'] + st['v']):
@@ -1015,7 +1141,7 @@ def oracle_seq(c, impl):
         if name in ('integrate', 'bin'):
             if (w, v) != (pw, pv):
                 return f'{tag}: the query modified the spectrum'
-            m = oracle_query(o, st, pw, pv, memo, tag)
+            m = oracle_query(o, st, pw, pv, memo, tag, lo_prec)
             if m:
                 return m
             continue
@@ -1031,10 +1157,12 @@ def oracle_seq(c, impl):
                     return f'{tag}: the object does not hold the assigned values'
             pw, pv = w, v
             continue
-        # retained samples unaltered
+        # retained samples unaltered (unsigned / float32 tables go through scipy's generic interpolation path, which
+        # re-computes a node from its left neighbour: there an ulp is allowed; float64 and int64 tables: bit for bit)
         old = dict(zip(pw, pv))
+        generic = c.get('dtype') not in (None, 'int')
         for x, y in zip(w, v):
-            if x in old and old[x] != y:
+            if x in old and old[x] != y and not (generic and name == 'resample' and close(float(y), old[x], 1e-5 if lo_prec else TOL)):
                 return f'{tag}: the sample at wavelength {float(x)} changed from {float(old[x])} to {float(y)}'
         if name == 'append' and o.get('copy'):
             if (w, v) != (pw, pv):
@@ -1104,7 +1232,7 @@ def oracle_seq(c, impl):
                 if w != g:
                     return f'{tag}: grid is not the requested one'
                 for x, y in zip(w, v):
-                    if not close(float(y), o_interp(pw, pv, x)):
+                    if not close(float(y), o_interp(pw, pv, x), 1e-5 if lo_prec else TOL):
                         return f'{tag}: value at {float(x)} is {float(y)}, interpolant gives {float(o_interp(pw, pv, x))}'
         pw, pv = w, v
     return None
@@ -1222,12 +1350,28 @@ def oracle(c, impl):
 
 # ------------------------------------------------------------------ known findings
 def known_match(f, c, impl):
+    if f['id'] == 'C15-one-sample-other-dtype':
+        # the first thing that goes wrong is a nan produced by sampling (resample / bin) a ONE-sample spectrum whose
+        # wave or value array is neither float64 nor int64
+        if c['op'] != 'seq' or c.get('dtype') in (None, 'int') or 'steps' not in impl:
+            return False
+        n = len(c['w'])
+        for o, st in zip(c['ops'], impl['steps']):
+            if any(x != x for x in st['v']):
+                return n == 1 and o['k'] == 'resample'
+            if o['k'] == 'bin' and n == 1 and isinstance(st.get('ans'), list) and any(x != x for x in st['ans']):
+                return True
+            n = len(st['w'])
+        return False
     return False
 
 
 def replay_known(f):
     lentil = C.import_lentil()
     S = lentil.radiometry.Spectrum
+    if f['id'] == 'C15-one-sample-other-dtype':
+        s = S(np.array([9], dtype=np.uint16), np.array([5.]))
+        return bool(np.isnan(s.sample(np.array([9.]))[0]))
     if f['id'] == 'C15-bin-integer-centres':
         s = S(np.array([1., 2., 4., 8.]), np.array([1., 3., 7., 2.]))
         a = s.bin(np.array([2, 3, 6]), interp_method='simps', ends='inside', preserve_power=False)
